@@ -187,7 +187,7 @@ func vlogCuts(dir string, from, to int64) []int64 {
 	}
 	// a cut after an inner commit marker is the state that differs from both "before" and "after" the write:
 	// such cuts get three quarters of the weight when there are any
-	for i := 0; len(commits) > 0 && i < 3*len(res); i++ {
+	for i, n0 := 0, len(res); len(commits) > 0 && i < 3*n0; i++ {
 		res = append(res, commits[i%len(commits)])
 	}
 	return res
